@@ -123,6 +123,21 @@ func gen(t *rapid.T, cfg Config) *Scenario {
 		} else {
 			c.Client.Port = uint16(rapid.IntRange(1024, 65535).Draw(t, "client port"))
 		}
+		// UDP flows between the same two hosts whose port pairs have the same XOR share a bucket of the flow table
+		if c.Proto == "UDP" && percent(t, "udp bucket mate", 50) {
+			for _, prev := range s.Conversations {
+				if prev.Proto == "UDP" && prev.IPv6 == c.IPv6 {
+					k := uint16(rapid.IntRange(1, 3).Draw(t, "bucket mate xor"))
+					c.Client.IP, c.Server.IP = prev.Client.IP, prev.Server.IP
+					c.Client.Port, c.Server.Port = prev.Client.Port^k, prev.Server.Port^k
+					if rapid.Bool().Draw(t, "bucket mate swapped") {
+						c.Client, c.Server = c.Server, c.Client
+					}
+					c.Feat.BucketMate = true
+					break
+				}
+			}
+		}
 		// unique 5-tuples, also when orientation is ignored (by construction)
 		for keys[c.Key()] || (c.Client.IP.Equal(c.Server.IP) && c.Client.Port == c.Server.Port) {
 			c.Client.Port++
@@ -295,10 +310,28 @@ func genTCP(t *rapid.T, c *Conversation, cfg Config) {
 			dir = 1 - dir
 		}
 		size := drawFlightSize(t, cfg)
+		// now and then one flight of a connection is captured as hundreds of tiny segments with one of the first
+		// segments far behind its place (several hundred segments wait for it)
+		deep := !c.Feat.DeepReorder && percent(t, "deep reorder", 2)
+		if deep {
+			size = rapid.IntRange(270, 640).Draw(t, "deep flight size")
+		}
 		base := f.addFlight(dir, pr.bytes(size))
 		segs := cutSegments(t, base, size)
+		if deep {
+			segs = segs[:0]
+			for off := 0; off < size; off++ {
+				segs = append(segs, piece{base + off, 1})
+			}
+			from := rapid.IntRange(0, 3).Draw(t, "deep displaced segment")
+			to := rapid.IntRange(from+257, size-1).Draw(t, "deep displaced to")
+			moved := segs[from]
+			copy(segs[from:to], segs[from+1:to+1])
+			segs[to] = moved
+			c.Feat.Reordered, c.Feat.DeepReorder = true, true
+		}
 		// bounded reordering inside the flight
-		if len(segs) >= 2 && rapid.IntRange(0, 9).Draw(t, "reorder") < 4 {
+		if !deep && len(segs) >= 2 && rapid.IntRange(0, 9).Draw(t, "reorder") < 4 {
 			type ks struct {
 				key int
 				p   piece
